@@ -986,13 +986,6 @@ def f20(case):
     return _plain_str_enum(case, kt)
 
 
-@framework.finding("counter-keys-not-unstructured")
-def f35(case):
-    t = case.get("ty")
-    return (isinstance(t, (list, tuple)) and t[0] == "counter" and case.get("minimal") is True
-            and (case.get("dict_variant_passes") is True or case.get("stage") == "dumps"))
-
-
 PROVISIONAL = [
     {"id": "F17", "property": "C16", "kind": "finding", "signature": "json-int-enum-mapping-key",
      "what": "json/msgspec converters: a mapping keyed by an Enum with int values (plain or int mix-in) is dumped with the keys as JSON strings (\"1\") and loads then fails: E(\"1\") is not a valid member"},
@@ -1004,8 +997,6 @@ PROVISIONAL = [
      "what": "json/msgspec converters: a mapping keyed by a Literal with int or bool members comes back with string keys (\"1\", \"true\") that the literal hook rejects (msgspec: the encoder refuses bool keys)"},
     {"id": "F20", "property": "C16", "kind": "finding", "signature": "msgspec-plain-str-enum-mapping-key",
      "what": "msgspec converter: a mapping keyed by a plain Enum with str values whose value type needs a cattrs hook keeps the members as keys, and the msgspec encoder refuses them: dumps raises TypeError"},
-    {"id": "F42", "property": "C16", "kind": "finding", "signature": "counter-keys-not-unstructured",
-     "what": "Counter[K]: mapping_unstructure_factory takes the key type to be the tuple (K,), so keys are never unstructured (also on a plain Converter): json cannot dump Counter[bytes|date|datetime|plain Enum], pyyaml cannot dump Counter[Enum], a user hook for K is skipped when dumping but applied when loading; dict[K, int] with the same entries works"},
     {"id": "F50", "property": "C16", "kind": "finding", "signature": "msgspec-dataclass-string-annotations",
      "what": "msgspec converter: msgspec_attrs_unstructure_factory resolves string annotations (PEP 563) of attrs classes only; for a dataclass the pass-through test looks up the hook of the *string* 'float' (identity), so the dataclass is handed to to_builtins: user hooks of its field types are skipped on dump but applied on load, attrs classes with private attributes inside it lose the underscore (F8 again, through string annotations)"},
 ]
@@ -1086,8 +1077,6 @@ WITNESSES = [
     ("json-nonstr-literal-mapping-key", "json", [], ("dict", ("lit", [("i", 1)]), "int"), ("d", [(("i", 1), ("i", 1))])),
     ("msgspec-plain-str-enum-mapping-key", "msgspec", [{"kind": "plain", "vals": [("s", "a")]}],
      ("dict", ("enum", 0), ("opt", "int")), ("d", [(("e", 0, 0), ("i", 1))])),
-    ("counter-keys-not-unstructured", "json", [], ("counter", "bytes"), ("d", [(("y", "61"), ("i", 1))])),
-    ("counter-keys-not-unstructured", "yaml", [{"kind": "str", "vals": [("s", "a")]}], ("counter", ("enum", 0)), ("d", [(("e", 0, 0), ("i", 2))])),
 ]
 
 
@@ -1269,13 +1258,6 @@ def report(chk, R, w, fmt, mod, cfg, t, x, bad, stream=None):
         mcase["stream"] = stream
     mcase.update(case_stage(bad2, res2))
     t2 = un_nt(t2)
-    if not isinstance(t2, str) and t2[0] == "counter":
-        t3 = ("dict", t2[1], "int")
-        try:
-            r3 = run_impl(R, fmt, mod, cfg, t3, x2)
-            mcase["dict_variant_passes"] = check_oracle(w, cfg, t3, x2, r3) is None
-        except Exception:  # noqa: BLE001
-            mcase["dict_variant_passes"] = False
     if not isinstance(t2, str) and t2[0] == "cls" and w["classes"][t2[1]].get("strann"):
         mcase["plain_annotations_pass"] = plain_annotations_pass(w, fmt, mod, cfg, t2, x2)
     opts = opts_sx(cfg)
